@@ -34,7 +34,7 @@ RULE = ("exhaustive: every row-length vector (rows<=R, len<=L; zero rows, all ro
 BOUNDS = {"quick": {"max_rows": 3, "max_len": 3, "dtypes": QUICK_DTYPES, "schemes_plain": SCHEMES,
                     "schemes_other_forms": ["mixed (dups for argmax/argmin/max/min)"]},
           "thorough": {"max_rows": 4, "max_len": 4, "dtypes": ALL_DTYPES, "schemes_plain": SCHEMES,
-                       "schemes_other_forms": ["mixed", "dups"], "random": 40000, "random_max_rows": 7, "random_max_len": 6}}
+                       "schemes_other_forms": ["mixed", "dups"], "other_forms_max_len": 3, "random": 40000, "random_max_rows": 7, "random_max_len": 6}}
 
 _SUPPORT = {}
 
@@ -70,6 +70,8 @@ def cases(tier, seed):
                 for uf in UFUNCS:
                     if _supported(uf, dt):
                         yield {"lengths": lengths, "dtype": dt, "vals": scheme, "op": uf, "form": "reduce"}
+            if tier == "thorough" and max(lengths, default=0) > b["other_forms_max_len"]:
+                continue
             for name in NAMED:
                 schemes = ["dups"] if name in ("argmax", "argmin", "max", "min") else ["mixed"]
                 if tier == "thorough":
